@@ -196,11 +196,19 @@ def sphere_through(h, k=1):
         h.eq("circle_through agrees (radius)", r2, r)
 
 
-def _angle(h, name):
-    """a symbolic angle as the direction of a non-zero vector; returns (arctan2 value, (x, y))"""
+def _angle(h, name, wind=0):
+    """a symbolic angle as the direction of a non-zero vector; returns (arctan2 value, (x, y)).
+    wind=+1: the same direction read as p + 2pi for p < 0 (value in (pi, 2pi)); wind=-1: p - 2pi for p > 0 (value in (-2pi, -pi))"""
     x, y = h.var(name + "x"), h.var(name + "y")
     h.assume((x != 0) | (y != 0) if h.is_sym() else (abs(x) + abs(y) > 1e-3), 'non-zero direction')
-    return np.arctan2(np.array(y, dtype=object) if h.is_sym() else y, np.array(x, dtype=object) if h.is_sym() else x), (x, y)
+    th = np.arctan2(np.array(y, dtype=object) if h.is_sym() else y, np.array(x, dtype=object) if h.is_sym() else x)
+    if wind == 1:
+        h.assume(y < 0, 'principal value negative (angle given in (pi, 2pi))')
+        th = transc.CircAng(th.x, th.y, 'positive') if h.is_sym() else th + 2 * math.pi
+    elif wind == -1:
+        h.assume(y > 0, 'principal value positive (angle given in (-2pi, -pi))')
+        th = transc.CircAng(th.x, th.y, 'negative') if h.is_sym() else th - 2 * math.pi
+    return th, (x, y)
 
 
 def _dir(h, th):
@@ -215,14 +223,14 @@ def _same_dir(h, name, th, v):
     h.holds(f"{name}: same sense", x * v[0] + y * v[1] > 0)
 
 
-def arcs(h, which='short_arc', batch=1):
+def arcs(h, which='short_arc', batch=1, wind=(0, 0)):
     """the arc-ordering helpers return the same two angles, ordered so that the counter-clockwise arc is the short one /
     the right-to-left one / the one containing the reference"""
     rows = []
     vecs = []
     for b in range(batch):
-        a0, v0 = _angle(h, f"a{b}")
-        a1, v1 = _angle(h, f"b{b}")
+        a0, v0 = _angle(h, f"a{b}", wind[0])
+        a1, v1 = _angle(h, f"b{b}", wind[1])
         cr = v0[0] * v1[1] - v0[1] * v1[0]
         if which == 'short_arc':
             h.assume(cr != 0 if h.is_sym() else abs(cr) > 1e-3, 'not antipodal / equal (the short arc is then unique)')
